@@ -542,6 +542,9 @@ def run_programs(ck, rng, thorough):
                         key = K_NEG
                     elif why == 'negzero' and (kind == 'Mul' or (kind not in ('Neg', 'Mul') and negzero_from[0] == 'Mul')):
                         key = K_MULZ
+                    elif kind == 'Abs' and why in ('not representable', 'not in set') and not special(value) and wrapped(e, value):
+                        # abs(999) under SINT8 wraps to -25: the clipped interval of the mixed-overlap branch misses it
+                        key = K_WRAP
                     elif kind == 'Abs' and why in ('not representable', 'not in set') and not special(value):
                         key = K_ABS
                     elif kind in ('Min', 'Max') and not special(value) and why in ('not representable', 'not in set') \
